@@ -61,7 +61,7 @@ class convert_from_object_rec(Contract):
     trusted = True
 
     def frame(self, c):
-        return Frame(all_raw=True, err=True, ghost=CFO)
+        return Frame(all_raw=True, err=True, ghost=CFO, trace=[])
 
     def post(self, c):
         return [('recorded', z3.And(g(c.new, 'cfo_count') == g(c.old, 'cfo_count') + 1,
@@ -87,7 +87,7 @@ class allocate_owning_object(Contract):
         return [('size covers the header', z3.And(c['size'] >= 40, c['size'] < 2 * BOUND)), ('ct-valid', c.valid(c['ct'], 104))]
 
     def frame(self, c):
-        return Frame()
+        return Frame(trace=[])
 
     def allocates(self, c):
         return [(c.result, c['size'])]
@@ -120,7 +120,7 @@ class allocate_with_allocator(Contract):
                  '(A-ALLOC: such an allocation succeeds)', self.in_scope(c))]
 
     def frame(self, c):
-        return Frame(err=True, havoc_if=z3.Not(self.in_scope(c)))
+        return Frame(err=True, havoc_if=z3.Not(self.in_scope(c)), trace=[])
 
     def allocates(self, c):
         return [(c.result, c['basesize'] + c['datasize'])]
